@@ -2,7 +2,7 @@
 import re
 
 from mirlib import AnchorMissing, path_matches, op_place
-from helpers import (aggregates, branches_on_call, calls_matching, field_accesses, loop_of, must_pass, vexpr, try_edges, enum_switches, arm)
+from helpers import (aggregates, effect_blocks, branches_on_call, calls_matching, field_accesses, loop_of, must_pass, vexpr, try_edges, enum_switches, arm)
 import gating
 
 EXPLANATION = (
@@ -194,18 +194,19 @@ def r_extension_filter(r, prog):
         r.finding('extension-test', g.span, 'is_slice_file does not compare Path::extension() with "slice"')
     # explicit arguments: non-slice files and source directories are errors; missing paths are errors
     h = prog.fn(FU + 'find_slice_files')
-    ios = [a for a in aggregates(prog, 'slicec::diagnostics::errors::Error', 'IO') if a['fn'] is h]
+    io_aggs = aggregates(prog, 'slicec::diagnostics::errors::Error', 'IO')
+    ios = sorted(effect_blocks(prog, h, lambda g: [a['bb'] for a in io_aggs if a['fn'] is g and not g.blocks[a['bb']].get('cleanup')]))
     ex = branches_on_call(h, lambda c: c.name() == 'exists')
-    if len(ios) >= 3 and ex and h.edge_dominates(ex[0]['bb'], ex[0]['false'], ios[0]['bb']):
+    if len(ios) >= 3 and ex and any(h.edge_dominates(ex[0]['bb'], ex[0]['false'], b) for b in ios):
         r.ok('nonexistent paths, files without the .slice extension and source directories are reported as Error::IO (3 producers)')
     else:
         r.finding('explicit-path-errors', h.span, 'find_slice_files has %d Error::IO producers (expected: not found, wrong extension, directory as source)' % len(ios))
     # every reported path is skipped (continue): the resolution of that path does not proceed
     cont_ok = True
     ext = [c for c in h.calls() if c.name() == 'extend']
-    for a in ios[:3]:
-        lp = loop_of(h, a['bb'])
-        if lp and ext and ext[0].bb in h.reachable(a['bb'], blocked=[lp[0]]):
+    for b in ios:
+        lp = loop_of(h, b)
+        if lp and ext and ext[0].bb in h.reachable(b, blocked=[lp[0]]):
             cont_ok = False
     if cont_ok:
         r.ok('a rejected argument contributes no files')
